@@ -450,15 +450,93 @@ def r12_6(ctx, counts: dict[str, int]) -> RuleResult:
     return res
 
 
+STR_REWRITES = {'replace', 'translate', 'strip', 'lstrip', 'rstrip', 'lower', 'upper', 'casefold',
+                'expandtabs', 'encode', 'format', 'join', 'removeprefix', 'removesuffix', 'sub'}
+
+
+def r12_7(ctx, counts: dict[str, int]) -> RuleResult:
+    """fn:replace copies the unmatched text of the input verbatim"""
+    res = RuleResult(
+        'R12.7', 'COPIED-TEXT-NOT-REWRITTEN',
+        'fn:replace returns the input with only the matches replaced ("$0" is the identity). In '
+        'the function bound to `replace` the substitution is one call P.sub(repl, subject): the '
+        'subject is the input argument as obtained from get_argument (never reassigned from a '
+        'string rewrite of itself), and the value of the .sub() call is returned as it is: no '
+        'str method (replace, translate, strip, ...) is applied to it, directly or through the '
+        'variable it is stored in. A decoding pass over the whole result also decodes text that '
+        'was copied from the input: replace("a\\$b", "a", "$0") lost the backslash and the q '
+        'flag doubled and re-halved the backslashes of the input.')
+    funcs = {}
+    for rec in ctx.reg.all_records():
+        if rec.symbol == 'replace' and rec.lookup_name.endswith('replace'):
+            ref = rec.method('evaluate')
+            if ref is not None and ref.func is not None and ref.origin != 'class':
+                funcs[ref.func] = True
+    if not funcs:
+        raise AnalysisError('the function bound to fn:replace was not located')
+    n = 0
+    for f in sorted(funcs, key=lambda q: q.key):
+        parent_of = {id(ch): par for par in ast.walk(f.node) for ch in ast.iter_child_nodes(par)}
+        subs = [c for c in walk_local(f.node) if isinstance(c, ast.Call)
+                and isinstance(c.func, ast.Attribute) and c.func.attr == 'sub'
+                and dotted(c.func.value) not in ('re',) and len(c.args) == 2]
+        for c in subs:
+            n += 1
+            problems = []
+            parent = parent_of.get(id(c))
+            if isinstance(parent, ast.Attribute) and parent.value is c:
+                problems.append((parent, f'`.{parent.attr}(..)` is applied to the result of the '
+                                         f'substitution'))
+            elif isinstance(parent, ast.Assign) and len(parent.targets) == 1 \
+                    and isinstance(parent.targets[0], ast.Name):
+                v = parent.targets[0].id
+                for x in walk_local(f.node):
+                    if isinstance(x, ast.Call) and isinstance(x.func, ast.Attribute) \
+                            and x.func.attr in STR_REWRITES and dotted(x.func.value) == v:
+                        problems.append((x, f'`{stmt_text(x)[:40]}` rewrites the result of the '
+                                            f'substitution'))
+            subj = c.args[1]
+            if isinstance(subj, ast.Name):
+                for x in walk_local(f.node):
+                    if isinstance(x, (ast.Assign, ast.AnnAssign, ast.AugAssign)):
+                        tg = x.targets if isinstance(x, ast.Assign) else [x.target]
+                        if any(dotted(t) == subj.id for t in tg) and x.value is not None and any(
+                                isinstance(y, ast.Call) and isinstance(y.func, ast.Attribute)
+                                and y.func.attr in STR_REWRITES
+                                and any(isinstance(z, ast.Name) and z.id == subj.id
+                                        for z in ast.walk(y))
+                                for y in ast.walk(x.value)):
+                            problems.append((x, f'the subject `{subj.id}` of the substitution is '
+                                                f'rewritten first: `{stmt_text(x)[:50]}`'))
+            elif not (isinstance(subj, ast.Call) and 'get_argument' in stmt_text(subj)):
+                problems.append((subj, f'the subject `{stmt_text(subj)[:40]}` of the substitution '
+                                       f'is not the input argument'))
+            res.instances.append(f'{f.key}: L{c.lineno} `{stmt_text(c)[:50]}` copied text '
+                                 f'untouched: {not problems}')
+            if not problems:
+                res.ok()
+            for node, why in problems:
+                res.fail(finding('R12.7', f, node, 'copied text rewritten',
+                                 f'{why}: the text copied from the input is rewritten together '
+                                 f'with the replacements, so replace(S, P, "$0") is not S for an '
+                                 f'S that contains the rewritten sequence (e.g. "a\\$b")'))
+    counts['replace_substitutions'] = n
+    if n < 1:
+        raise AnalysisError('fn:replace: no P.sub(repl, subject) call located')
+    return res
+
+
 def run(ctx) -> dict:
     counts: dict[str, int] = {}
     from .c13_unicode import r13_3
     from .c13_unicode import r13_4
     from .c13_unicode import r13_6
     from .c13_unicode import r13_7
+    from .c13_unicode import r13_9
     results = [r12_1(ctx, counts), r12_2(ctx, counts), r13_3(ctx, counts), r12_4(ctx, counts),
                r13_4(ctx, counts), r12_5(ctx, counts), r13_6(ctx, counts),
-               r13_7(ctx, counts), r12_6(ctx, counts)]
+               r13_7(ctx, counts), r12_6(ctx, counts),
+               r12_7(ctx, counts), r13_9(ctx, counts)]
     # process-wide state is written only by the reviewed inventory (no new caches)
     from .c19_global import r19_5 as _r19_5
     _state = _r19_5(ctx, counts, lambda f: f.module.name.startswith('elementpath.regex'), 2)
